@@ -42,7 +42,7 @@ def run(ctx):
         if not r.fc_start["wf"]:
             raise RuntimeError(f"generator produced a start file that is not well-formed: {r.desc}")
         C.correspondence(ctx, r)
-        judge(ctx, r)
+        C.judge_and_shrink(ctx, r, judge)
     ctx.notes.append(f"exhaustive part: all histories of length <= {depth} over 12 operations for N in {{1,2,3}}")
 
 
